@@ -248,11 +248,20 @@ def langNeg : Neg (List Bool) Q :=
 def langFallbackSelf (self : List (Str × Q)) : List (Str × Q) :=
   mk acceptNeg (self.map fun it => (primaryTag it.1, it.2))
 
-/-- `LanguageAccept.best_match(offers)` (default `None`), as repaired by 754d284 -/
+/-- the offers that stay in play for the fallback stages (0816efc): those the exact stage did not
+find refused, i.e. whose `_best_single_match` is `None` or has `q > 0` -/
+def langNotRefused (self : List (Str × Q)) (offers : List Str) : List Str :=
+  offers.filter fun o =>
+    match bestSingle langNeg self o with
+    | none => true
+    | some (_, q) => !(Q.le q Q.zero)
+
+/-- `LanguageAccept.best_match(offers)` (default `None`), as repaired by 754d284 and 0816efc -/
 def langBestMatch (self : List (Str × Q)) (offers : List Str) : Option Str :=
   match bestMatch langNeg self offers with
   | some r => some r
   | none =>
+    let offers := langNotRefused self offers
     match bestMatch acceptNeg (langFallbackSelf self) offers with
     | some r => some r
     | none =>
@@ -264,8 +273,8 @@ def langBestMatch (self : List (Str × Q)) (offers : List Str) : Option Str :=
 /-- which stage produced the result (0 = none, 1 exact, 2 client primary, 3 offer primary) -/
 def langStage (self : List (Str × Q)) (offers : List Str) : Nat :=
   if (bestMatch langNeg self offers).isSome then 1
-  else if (bestMatch acceptNeg (langFallbackSelf self) offers).isSome then 2
-  else if (bestMatch langNeg self (offers.map primaryTag)).isSome then 3 else 0
+  else if (bestMatch acceptNeg (langFallbackSelf self) (langNotRefused self offers)).isSome then 2
+  else if (bestMatch langNeg self ((langNotRefused self offers).map primaryTag)).isSome then 3 else 0
 
 /-! ## CharsetAccept -/
 
